@@ -45,7 +45,7 @@ def check(ctx):
     ctx.check(writers == {R.path}, "C11.counter", "tree-counter:written-only-by-runner", "%s:%d" % (R.file, R.line),
               "only the runner takes the counter mutably", "the tree counter is mutably accessed in %s" % sorted(writers - {R.path}))
     # ---- postponed queue ----
-    n = core.adopt(ctx, c02, lambda o: o["rule"] == "C02.c" and any(k in o["key"] for k in ("discard", "detached-queue", "replay-present")), "C11.queue")
+    n = core.adopt(ctx, c02, lambda o: o["rule"] == "C02.c" and any(k in o["key"] for k in ("discard", "detached-queue", "replay-present", "::replay:")), "C11.queue")
     ctx.floor("C11.queue", n, 5, "shared queue obligations")
     q = A.names(prog)["queue_type"]
     qusers = set()
